@@ -13,8 +13,11 @@ def gen(tier, rng):
     progs = reactive_gen.random_programs(rng.randrange(1 << 30), n, FEATS, (4, 9), (3, 9), max_nodes=10)
     out = []
     for i, p in enumerate(progs):
-        out.append(("random:%d" % i, p + [("dispose", 0)]))      # root disposal closes every history
-    out += cleanup_writes(tier, rng)
+        # root disposal closes every history: through the root scope's NodeHandle, or (odd cases) left to the RootHandle at the end
+        out.append(("random:%d" % i, p + [("dispose", 0)] if i % 2 == 0 else p))
+    fam = cleanup_writes(tier, rng)
+    out += fam
+    out += root_handle_disposal(fam)
     return out
 
 
@@ -94,6 +97,28 @@ def cleanup_creates():
                                   ("scope", 2, [("curscope", 4), ("scope", 5, []), ("oncleanup", 1, [("dispose", target), ("runin", 5, act)])])]),
                     ("dispose", 2), ("set", 1, ("lit", 2)), ("dispose", 0)]
             out.append(("cleanup-creates:%d" % k, prog)); k += 1
+    return out
+
+
+def root_handle_disposal(fam):
+    """the same shapes left ALIVE until the end of the scenario, where the driver disposes the root through its RootHandle (from
+    outside the root): cleanups that write what live effects / memos read (which then run, register cleanups and create nodes in
+    the middle of the disposal), cleanups that create nodes / register cleanups / look contexts up"""
+    out = []
+    k = 0
+    for _, prog in fam:
+        alive = [st for st in prog if st[0] != "dispose"]
+        if alive != prog:
+            out.append(("root-handle:%d" % k, alive)); k += 1
+    # an effect that re-registers its cleanup on every run, a root-level cleanup that makes it run; an older effect and a younger
+    # scope whose cleanup writes; a memo whose re-run creates a scope with an effect and a cleanup
+    out.append(("root-handle:%d" % k, [("signal", 1, ("lit", 1)), ("effect", 2, ("body", None, [("oncleanup", 1, [("log", ("lit", 5))])], ("get", 1))),
+                                       ("oncleanup", 2, [("set", 1, ("lit", 0))])])); k += 1
+    out.append(("root-handle:%d" % k, [("signal", 1, ("lit", 1)), ("scope", 2, [("effect", 3, ("body", None, [("oncleanup", 1, [])], ("get", 1)))]),
+                                       ("scope", 4, [("oncleanup", 2, [("set", 1, ("lit", 7))])])])); k += 1
+    out.append(("root-handle:%d" % k, [("signal", 1, ("lit", 1)),
+                                       ("memo", 2, ("body", None, [("scope", 3, [("effect", 4, ("body", None, [], ("get", 1))), ("oncleanup", 1, [])])], ("get", 1))),
+                                       ("scope", 5, [("oncleanup", 2, [("set", 1, ("lit", 2))])])])); k += 1
     return out
 
 
